@@ -123,6 +123,15 @@ void h_parseNumber(void) {
   num_t w = spec_number((const char *)buf);
   __CPROVER_assume(w.end < NB);
   __CPROVER_assume(buf[0] == '-' || dig((char)buf[0]));        /* parseNumber is entered on '-' or a digit */
+#ifdef SHAPE_ZEROS
+  /* shape-restricted job: [-]0.000...0 followed by at most 3 arbitrary bytes (zeros written with many digits) */
+  { size_t o = buf[0] == '-'; __CPROVER_assume(buf[o] == '0' && buf[o + 1] == '.');
+    for (int k = 3; k < NB - 4; k++) __CPROVER_assume(buf[k] == '0'); }
+#endif
+#ifdef SHAPE_LONGINT
+  /* shape-restricted job: [-] followed by at least NB-5 digits, then at most 3 arbitrary bytes (19/20/21+ digit integers) */
+  for (int k = 1; k < NB - 4; k++) __CPROVER_assume(dig((char)buf[k]));
+#endif
   Parser P; P.json_buf_ = buf; P.len_ = NB; P.pos_ = 1; P.err_ = kErrorNone;
   SAX sax; sax.kind = 0; sax.calls = 0;
   conv.calls = 0;
